@@ -48,7 +48,7 @@ def template_of(d, operand):
     if o[0] != "call" or not o[1].endswith("Arguments::new") and not re.search(r"Arguments(?:::<'a>)?::new$", o[1]):
         return None
     tb = local.peel(o[2][0])
-    if tb[0] not in ("const", "namedconst") or not isinstance(tb[1], (bytes, bytearray)):
+    if not isinstance(local.const_value(tb), (bytes, bytearray)):
         return None
     arr = local.peel(o[2][1])
     args = []
@@ -61,7 +61,7 @@ def template_of(d, operand):
                 args.append(("?", a))
     m = ccp.Machine([])
     holes = [ccp.FmtArg(ccp.Sym("arg%d" % i), k) for i, (k, _) in enumerate(args)]
-    tm = m._arguments_new(ccp.Const(bytes(tb[1])), ccp.Agg("array", None, None, holes))
+    tm = m._arguments_new(ccp.Const(bytes(local.const_value(tb))), ccp.Agg("array", None, None, holes))
     return tm, args
 
 
